@@ -193,7 +193,20 @@ impl ConsoleAppenderBuilder {
             },
         };
 
-        let do_write = writer.is_tty() || !self.tty_only;
+        // `tty_only` is about the target stream being a terminal, not about
+        // whether color output happens to be enabled for it.
+        #[cfg(unix)]
+        let is_tty = {
+            let fd = match self.target {
+                Target::Stderr => libc::STDERR_FILENO,
+                Target::Stdout => libc::STDOUT_FILENO,
+            };
+            unsafe { libc::isatty(fd) == 1 }
+        };
+        #[cfg(not(unix))]
+        let is_tty = writer.is_tty();
+
+        let do_write = is_tty || !self.tty_only;
 
         ConsoleAppender {
             writer,
